@@ -5,6 +5,7 @@
 -/
 import Gnet.Model.Ring
 import Gnet.Model.LinkedList
+import Gnet.Spec.ElasticFifo
 
 namespace Gnet
 
@@ -115,6 +116,29 @@ def writeTo (b : ERing α) (sc : List WStep) : ERing α × Nat × Err × List α
 
 def abs (b : ERing α) : List α := match b.rb with | none => [] | some r => r.abs
 
+/-- one operation of `elastic.RingBuffer` on (buffer, reader position). `writev` does not
+    exist on the wrapper and is treated as the concatenated `Write`. -/
+def step (gen : Nat → α) (s : ERing α × Nat) : ElasticFifo.Op α → (ERing α × Nat) × Fifo.Obs α
+  | .write p => ((s.1.write p, s.2), ⟨p.length, .nil, []⟩)
+  | .writeByte c => ((s.1.writeByte c, s.2), ⟨1, .nil, []⟩)
+  | .writev bs => ((s.1.write bs.flatten, s.2), ⟨bs.flatten.length, .nil, []⟩)
+  | .read n => let (b', d, e) := s.1.read n; ((b', s.2), ⟨d.length, e, d⟩)
+  | .readByte => let (b', x, e) := s.1.readByte; ((b', s.2), ⟨x.toList.length, e, x.toList⟩)
+  | .peek n => let (h, t) := s.1.peek n; (s, ⟨(h ++ t).length, .nil, h ++ t⟩)
+  | .discard n => let (b', d, e) := s.1.discard n; ((b', s.2), ⟨d, e, []⟩)
+  | .bytes => (s, ⟨s.1.bytes.length, .nil, s.1.bytes⟩)
+  | .readFrom sc => let (b', n, e, pos') := s.1.readFrom gen s.2 sc; ((b', pos'), ⟨n, e, []⟩)
+  | .writeTo sc => let (b', n, e, sink, _) := s.1.writeTo sc; ((b', s.2), ⟨n, e, sink⟩)
+  | .reset _ => ((s.1.reset, s.2), ⟨0, .nil, []⟩)
+  | .release => ((s.1.doneAll, s.2), ⟨0, .nil, []⟩)
+
+def run (gen : Nat → α) (s : ERing α × Nat) : List (ElasticFifo.Op α) → (ERing α × Nat) × List (Fifo.Obs α)
+  | [] => (s, [])
+  | op :: ops => let (s', o) := step gen s op; let (s'', os) := run gen s' ops; (s'', o :: os)
+
+/-- representation invariant: the held ring, if any, is well formed -/
+def WF (b : ERing α) : Prop := ∀ r, b.rb = some r → r.WF
+
 end ERing
 
 /-- `elastic.Buffer` -/
@@ -212,6 +236,31 @@ def release (m : Elastic α) : Elastic α := { m with ring := m.ring.doneAll, li
 
 /-- abstract content: the ring's bytes are older than the list's -/
 def abs (m : Elastic α) : List α := m.ring.abs ++ m.list.abs
+
+/-- one operation of `elastic.Buffer`. `writeByte`, `readByte`, `bytes` do not exist on the
+    mixed buffer and are treated as `Write` of one byte / `Read(1)` / `Peek` of everything. -/
+def step (gen : Nat → α) (s : Elastic α × Nat) : ElasticFifo.Op α → (Elastic α × Nat) × Fifo.Obs α
+  | .write p => ((s.1.write p, s.2), ⟨p.length, .nil, []⟩)
+  | .writeByte c => ((s.1.write [c], s.2), ⟨1, .nil, []⟩)
+  | .writev bs => let (m', n) := s.1.writev bs; ((m', s.2), ⟨n, .nil, []⟩)
+  | .read n => let (m', d, e) := s.1.read n; ((m', s.2), ⟨d.length, e, d⟩)
+  | .readByte => let (m', d, e) := s.1.read 1; ((m', s.2), ⟨d.length, e, d⟩)
+  | .peek n => let (ss, e) := s.1.peek n; (s, ⟨ss.flatten.length, e, ss.flatten⟩)
+  | .discard n => let (m', d, e) := s.1.discard n; ((m', s.2), ⟨d, e, []⟩)
+  | .bytes => let (ss, _) := s.1.peek 0; (s, ⟨ss.flatten.length, .nil, ss.flatten⟩)
+  | .readFrom sc => let (m', n, e, pos') := s.1.readFrom gen s.2 sc; ((m', pos'), ⟨n, e, []⟩)
+  | .writeTo sc => let (m', n, e, sink) := s.1.writeTo sc; ((m', s.2), ⟨n, e, sink⟩)
+  | .reset ms => ((s.1.reset ms, s.2), ⟨0, .nil, []⟩)
+  | .release => ((s.1.release, s.2), ⟨0, .nil, []⟩)
+
+def run (gen : Nat → α) (s : Elastic α × Nat) : List (ElasticFifo.Op α) → (Elastic α × Nat) × List (Fifo.Obs α)
+  | [] => (s, [])
+  | op :: ops => let (s', o) := step gen s op; let (s'', os) := run gen s' ops; (s'', o :: os)
+
+/-- representation invariant -/
+structure WF (m : Elastic α) : Prop where
+  ring : m.ring.WF
+  list : m.list.WF
 
 end Elastic
 end Gnet
